@@ -394,6 +394,7 @@ func runC07(c *Ctx) {
 			// every return that can follow the hand-out point returns the value read there (whatever
 			// the error result is spelled as: an early `return 0, err` cannot follow the read)
 			okRet, nRet := true, 0
+			goodRet := map[*ast.ReturnStmt]bool{}
 			as := f.nodeAt(reads[0]).(*ast.AssignStmt)
 			after := func(q Point) bool {
 				_, found := f.reach(Point{reads[0].B, reads[0].I + 1}, nil, func(x Point, atExit bool) bool { return !atExit && f.At(x, q) })
@@ -427,11 +428,25 @@ func runC07(c *Ctx) {
 					}
 					good = good && clean
 				}
-				if !good {
-					okRet = false
+				goodRet[rs] = good
+			}
+			// a path from the hand-out point to a return that neither returns the read value nor is known
+			// to report an error on that path
+			if _, found := f.reach(Point{reads[0].B, reads[0].I + 1}, &searchOpts{AvoidRet: func(rs *ast.ReturnStmt, val func(ast.Expr) int8) bool {
+				if goodRet[rs] {
+					return true
+				}
+				return len(rs.Results) == 2 && val(rs.Results[1]) > 0
+			}}, func(_ Point, atExit bool) bool { return atExit }); found {
+				okRet = false
+			}
+			nGood := 0
+			for _, g := range goodRet {
+				if g {
+					nGood++
 				}
 			}
-			okRet = okRet && nRet > 0
+			okRet = okRet && nRet > 0 && nGood > 0
 			if okRet {
 				r.Pass("seq/next-returns-read", "kvstore.Sequence.Next", f.PosOf(reads[0]), "the success return is the value read before the increment")
 			} else {
